@@ -36,6 +36,9 @@ type Case struct {
 	Txn    *Txn              `json:"transaction,omitempty"`
 	Load   *LoadObs          `json:"observed_load,omitempty"`
 	Result *TxnResult        `json:"observed_result,omitempty"`
+	// zoo: gateway configuration file given to the engine, real clock
+	Gateway   string `json:"gateway_config,omitempty"`
+	RealClock bool   `json:"real_clock,omitempty"`
 }
 
 type LoadObs struct {
@@ -208,7 +211,8 @@ func record(o *c.Out, it *Item, r *JobResult) {
 		}
 		tk := Case{Kind: "txn", Label: it.Label, Config: cf, Txn: t, Load: lo, Result: tr}
 		tidx := -1
-		if (tr.Outcome == "ok" || tr.Outcome == "error") && modelable(cf) && tr.NEvents == len(tr.Events) {
+		// (a selection probe that panicked gives the model no selection to work with)
+		if (tr.Outcome == "ok" || tr.Outcome == "error") && modelable(cf) && tr.NEvents == len(tr.Events) && tr.SelText == "" {
 			handed := false
 			for _, e := range tr.Events {
 				if e.Dir == "res" && t.Dir == "req" {
@@ -251,12 +255,15 @@ type RawItem struct {
 	Flows  map[string]string
 	Quotas map[string]string
 	Txns   []Txn
+	// zoo only
+	Gateway   string
+	RealClock bool
 }
 
-func runRaw(o *c.Out, items []RawItem) {
+func runRaw(o *c.Out, items []RawItem) map[int]*JobResult {
 	jobs := make([]Job, len(items))
 	for i, it := range items {
-		jobs[i] = Job{ID: i, Flows: it.Flows, Quotas: it.Quotas, Txns: it.Txns}
+		jobs[i] = Job{ID: i, Flows: it.Flows, Quotas: it.Quotas, Txns: it.Txns, Gateway: it.Gateway, RealClock: it.RealClock}
 	}
 	res := runJobs(jobs)
 	for i := range items {
@@ -264,7 +271,7 @@ func runRaw(o *c.Out, items []RawItem) {
 		r := res[i]
 		lo := loadObs(r)
 		dump(it.Label, r)
-		k := Case{Kind: it.Kind, Label: it.Label, Flows: it.Flows, Quotas: it.Quotas, Load: lo}
+		k := Case{Kind: it.Kind, Label: it.Label, Flows: it.Flows, Quotas: it.Quotas, Load: lo, Gateway: it.Gateway, RealClock: it.RealClock}
 		o.Case0(k, r.Accepted)
 		o.Count(it.Kind + ":verdict=" + r.LoadStatus)
 		o.MonitorChecked(1)
@@ -280,7 +287,8 @@ func runRaw(o *c.Out, items []RawItem) {
 			if tr.Outcome == "not-run" {
 				continue
 			}
-			tk := Case{Kind: it.Kind, Label: it.Label, Flows: it.Flows, Quotas: it.Quotas, Txn: &it.Txns[ti], Load: lo, Result: tr}
+			tk := Case{Kind: it.Kind, Label: it.Label, Flows: it.Flows, Quotas: it.Quotas, Txn: &it.Txns[ti], Load: lo, Result: tr,
+				Gateway: it.Gateway, RealClock: it.RealClock}
 			o.Case0(tk, len(tr.Events) > 0)
 			o.Count(it.Kind + ":txn-outcome=" + tr.Outcome)
 			o.MonitorChecked(1)
@@ -290,6 +298,7 @@ func runRaw(o *c.Out, items []RawItem) {
 			}
 		}
 	}
+	return res
 }
 
 // ---------------------------------------------------------------- main
@@ -337,6 +346,8 @@ func main() {
 		cf := cf
 		items = append(items, Item{Label: fmt.Sprintf("witness:%d", i), Config: cf})
 	}
+	// 1b. status filters next to early responses on overlapping URLs
+	items = append(items, statusEarlyItems(r.Fork(33))...)
 	// 2. single-defect variants
 	items = append(items, defectVariants()...)
 	// 3. response / request shapes
@@ -411,8 +422,39 @@ func main() {
 	runRaw(o, rawFlowItems())
 	runRaw(o, trafficItems(r.Fork(99), o.Scale(60, 400, 200)))
 
+	// 7. processor zoo (monitor only) + its coverage
+	zoo := zooItems(r.Fork(98), o.Scale(24, 200, 80))
+	raws := make([]RawItem, len(zoo))
+	for i := range zoo {
+		raws[i] = zoo[i].RawItem
+	}
+	zres := runRaw(o, raws)
+	seen := map[string]*zooSeen{}
+	rejected := map[string]string{}
+	for i := range zoo {
+		zr := zres[i]
+		lbl := zoo[i].Label
+		if !zr.Accepted || zr.EngineLoad != "ok" {
+			rejected[lbl] = zr.LoadStatus + " " + zr.RejectText + " " + zr.EngineLoad + " " + zr.EngineText
+			continue
+		}
+		seen[lbl] = &zooSeen{}
+		for ti := range zoo[i].Txns {
+			zooObserve(seen[lbl], &zoo[i].Txns[ti], &zr.Txns[ti])
+		}
+	}
+	gaps := zooReport(o, seen, rejected, zooProcs())
+
 	o.Note(fmt.Sprintf("child processes: %d started, %d died or were killed", childSpawns, childDeaths))
+	for _, g := range gaps {
+		o.Note("zoo coverage gap: " + g)
+	}
 	o.Finish()
+	if len(gaps) > 0 && !o.Search() {
+		// not a verdict about the gateway: the harness lost coverage it claims to have
+		fmt.Fprintf(os.Stderr, "c05: processor zoo coverage gaps:\n  %s\n", strings.Join(gaps, "\n  "))
+		os.Exit(3)
+	}
 }
 
 func replay(o *c.Out, k *Case) {
@@ -424,7 +466,7 @@ func replay(o *c.Out, k *Case) {
 		}
 		runItems(o, []Item{it})
 	default:
-		ri := RawItem{Kind: k.Kind, Label: k.Label, Flows: k.Flows, Quotas: k.Quotas}
+		ri := RawItem{Kind: k.Kind, Label: k.Label, Flows: k.Flows, Quotas: k.Quotas, Gateway: k.Gateway, RealClock: k.RealClock}
 		if k.Txn != nil {
 			ri.Txns = []Txn{*k.Txn}
 		}
